@@ -1,4 +1,5 @@
 //! Shared generators (DESIGN §3): values, typed expressions, untyped expressions, tokens.
+pub mod tokens;
 pub mod typed;
 pub mod untyped;
 
@@ -113,7 +114,15 @@ pub fn gen_ts(u: &mut Chooser) -> V {
     // seconds for 0001-01-01T00:00:00Z and 9999-12-31T23:59:59Z
     const MIN_S: i64 = -62135596800;
     const MAX_S: i64 = 253402300799;
-    let secs = match u.below(4) {
+    let secs = match u.below(5) {
+        4 => {
+            // within 400 days of chrono's limits
+            if u.flip() {
+                -8_334_601_228_800 + u.range(0, 400 * 86400)
+            } else {
+                8_210_266_876_799 - u.range(0, 400 * 86400)
+            }
+        }
         0 => *u.pick(&[0i64, -1, 1, 951782400, 1685232000, MIN_S, MAX_S, 2147483647, 2147483648, -2208988800, 946684799, 946684800]),
         1 => u.range(MIN_S, MAX_S),
         2 => u.range(-100000, 100000) * 86400 + u.range(-1, 1),
